@@ -534,6 +534,25 @@ func (c *ctx) c05RunJob(job *c05Job, idx int, model string) *c05JobResult {
 			res.notes = append(res.notes, fmt.Sprintf("case %s: the harness itself ran out of memory in the child (%s); no verdict", lastKey, site))
 			oc.Class, oc.Bad, oc.Nontriv = "unreached", nil, false
 		}
+		if job.Kind == "direct" && oc.Bad != nil && class == "OOM" {
+			// RLIMIT_AS bounds the ADDRESS SPACE of a child that has already decoded thousands of inputs: the Go runtime can fail to
+			// map a new block long before the heap is large ("cannot allocate ... (N in use)" with N far below the limit).  What
+			// counts is this input alone in a fresh process.
+			cj := &c05Job{Kind: "one", Spec: job.Spec, Tier: job.Tier, Seed: job.Seed, Dir: job.Dir, label: job.label + " (OOM confirmation)",
+				One: &c05Replay{Kind: "direct", Key: lastKey, Decoder: lastDec, Input: lastIn, Class: class}}
+			cr := c.c05RunJob(cj, 700+idx*40+attempt, model)
+			again := false
+			for _, x := range cr.outcomes {
+				if x.Bad != nil {
+					again = true
+				}
+			}
+			if !again && len(cr.outcomes) > 0 {
+				res.notes = append(res.notes, fmt.Sprintf("case %s: the long-running decoder child ran out of address space (%s); the same input alone in a fresh process is handled normally: no verdict",
+					lastKey, c05TailOf(first, 120)))
+				oc.Class, oc.Bad, oc.Nontriv = "unreached", nil, false
+			}
+		}
 		if job.Kind == "direct" && oc.Bad != nil {
 			oc.Mode, oc.Note, oc.Target, oc.MsgHex, oc.Bucket = "direct", "direct", lastDec, lastIn, "direct/"+lastDec
 			oc.Bad.Party = lastDec
